@@ -22,7 +22,11 @@ type Program struct {
 }
 
 // overlayFiles maps /verif/harness/overlay/<rel> to <repo>/<rel>.
-func overlayFiles(repo, hdir string) (map[string][]byte, []string, error) {
+func overlayFiles(repo, hdir string, only ...string) (map[string][]byte, []string, error) {
+	need := map[string]bool{}
+	for _, o := range only {
+		need[filepath.Clean(o)] = true
+	}
 	ov := map[string][]byte{}
 	dirs := map[string]bool{}
 	root := filepath.Join(hdir, "overlay")
@@ -34,6 +38,9 @@ func overlayFiles(repo, hdir string) (map[string][]byte, []string, error) {
 			return nil
 		}
 		rel, _ := filepath.Rel(root, p)
+		if len(need) > 0 && !need[filepath.Dir(rel)] {
+			return nil // harness packages this run does not use are not injected (one that does not compile cannot break the others)
+		}
 		data, err := os.ReadFile(p)
 		if err != nil {
 			return err
@@ -49,8 +56,13 @@ func overlayFiles(repo, hdir string) (map[string][]byte, []string, error) {
 	return ov, dl, err
 }
 
-func LoadProgram(repo, hdir string) (*Program, error) {
-	ov, dirs, err := overlayFiles(repo, hdir)
+// LoadProgram loads the module at repo with the harness packages injected as an overlay; `only` restricts
+// the injected harness packages (directories relative to the repo root; zzvrt is always included).
+func LoadProgram(repo, hdir string, only ...string) (*Program, error) {
+	if len(only) > 0 {
+		only = append(only, "zzvrt")
+	}
+	ov, dirs, err := overlayFiles(repo, hdir, only...)
 	if err != nil {
 		return nil, err
 	}
